@@ -420,7 +420,14 @@ class Executor:
             new_path = ".".join(path)
             for p, a in watchers:
                 if a._target is not real:
-                    ctx.fail("I5-follow", f"alias {'.'.join(p)} targeted the replaced member {new_path} but does not follow the replacement", tags=alltags)
+                    # set_member finds the aliases to retarget in the replaced member's `aliases`: an alias whose slot
+                    # there was taken over later by a stale alias object of the same path (known finding KF2) is missed
+                    t2 = list(alltags)
+                    rec = self.objs[old.uid].aliases
+                    writes = rec.writes.get(".".join(p), []) if isinstance(rec, _RecDict) else []
+                    if any(who == id(a) for _, who in writes) and writes[-1][1] != id(a):
+                        t2.append("slot-held-by-stale-alias")
+                    ctx.fail("I5-follow", f"alias {'.'.join(p)} targeted the replaced member {new_path} but does not follow the replacement", tags=t2)
                 elif a.target_path != new_path:
                     ctx.fail("I5-path", f"alias {'.'.join(p)} follows the replacement but reports target path {a.target_path!r} instead of {new_path!r}", tags=alltags)
 
